@@ -23,6 +23,15 @@ CHECKS = {
          "Trusted: vlib/treecanon.py as definition of 'names, types, permission bits, contents, link targets'; the kernel "
          "updates ctime on every change and the harness gives every mutation a fresh mtime (the property's stated premise).",
          "3 (C11)", "E4 treecanon"),
+ "C10": ("fault_enumeration",
+         "Hypothesis API-call sequences; file-operation trace with crash injection at every prefix (kill images) and generated garbling of unsynced data (power-loss images); oracle = recovered observable snapshot is an element of the allowed snapshot set",
+         "Every prefix of the file-operation trace of generated _BobState call sequences is turned into a kill image "
+         "and into power-loss images; a fresh start must not raise and must observe one of the saved snapshots, not "
+         "older than the end of the last completed invocation. Single-writer refusal is checked in the same sequences. "
+         "Crash points are enumerated exhaustively per sequence (sampled for >60 operations in the quick tier).",
+         "Kill behaviour is real (exact files); power loss is a model (unsynced contents arbitrary, last rename may be "
+         "lost). The sqlite build-id cache is not part of the property and not covered.",
+         "3 (C10)", "own tracer (checks/c10_state.py)"),
 }
 
 NOT_YET = {}
